@@ -50,6 +50,14 @@ func nodeNum(s string) uint64 {
 	hx.Must(err)
 	return v
 }
+func nameNum(s, prefix string) int {
+	if !strings.HasPrefix(s, prefix) {
+		panic("bad name " + s)
+	}
+	v, err := strconv.Atoi(s[len(prefix):])
+	hx.Must(err)
+	return v
+}
 func collNum(s string) uint64 {
 	switch s {
 	case "":
@@ -187,7 +195,7 @@ func okPlan(p shell.VerifC15Plan, what string) {
 
 // ---------- the three runs ----------
 func runBalance(s *Snap, colls []string) (string, bool, int) {
-	p := shell.VerifC15Balance(s.topo(), sizeLimit, colls, "")
+	p, locations := shell.VerifC15BalanceLocations(s.topo(), sizeLimit, colls, "")
 	okPlan(p, "balance")
 	if p.Err != "" {
 		panic("balance: unexpected error " + p.Err)
@@ -219,11 +227,12 @@ func runBalance(s *Snap, colls []string) (string, bool, int) {
 	sort.Ints(vids)
 	var obs []string
 	for _, vid := range vids {
-		var ns []uint64
-		for _, n := range p.Replicas[uint32(vid)] {
-			ns = append(ns, nodeNum(n))
+		// the planner's bookkeeping: data center, rack and server of every replica
+		ls := []string{}
+		for _, l := range locations[uint32(vid)] {
+			ls = append(ls, coqLoc(nameNum(l.Dc, "dc"), nameNum(l.Rack, "r"), int(nodeNum(l.Node))))
 		}
-		obs = append(obs, hx.Pair(hx.N(uint64(vid)), hx.NList(ns)))
+		obs = append(obs, hx.Pair(hx.N(uint64(vid)), hx.List(ls)))
 	}
 	return fmt.Sprintf("RBalance %s %s %s %s %s", hx.N(sizeLimit), hx.List(cs), hx.List(dts), hx.List(steps), hx.List(obs)), len(steps) > 0, len(steps)
 }
@@ -451,6 +460,127 @@ func genSnap(r *hx.Rng, dense bool) *Snap {
 	return s
 }
 
+// genSpreadSnap: replicated volumes spread over FULL source servers on several racks / data
+// centers, empty servers concentrated on one rack: the balancer has to move several
+// replicas of the same volume in one run, so every later move is decided on the
+// bookkeeping left by the earlier ones.
+func genSpreadSnap(r *hx.Rng) *Snap {
+	s := &Snap{}
+	ndc := r.Range(1, 2)
+	num := 0
+	var sources []*Node
+	for d := 1; d <= ndc; d++ {
+		nr := r.Range(2, 3)
+		if ndc == 2 {
+			nr = r.Range(1, 2)
+		}
+		for k := 1; k <= nr; k++ {
+			nn := 1
+			if r.Chance(1, 4) {
+				nn = 2
+			}
+			for j := 0; j < nn; j++ {
+				num++
+				n := &Node{Dc: d, Rack: k, Num: num, Disks: []*Disk{{Type: ""}}}
+				s.Nodes = append(s.Nodes, n)
+				sources = append(sources, n)
+			}
+		}
+	}
+	// the empty servers: one more rack of a random data center (or, sometimes, a new data center)
+	edc := r.Range(1, ndc)
+	erack := 4
+	if r.Chance(1, 5) {
+		edc, erack = ndc+1, 1
+	}
+	nempty := r.Range(2, 3)
+	var empties []*Node
+	for j := 0; j < nempty; j++ {
+		num++
+		empties = append(empties, &Node{Dc: edc, Rack: erack, Num: num, Disks: []*Disk{{Type: "", Max: uint64(r.Range(3, 6))}}})
+	}
+	// keep eachDataNode order: nodes grouped by dc, then rack
+	s.Nodes = append(s.Nodes, empties...)
+	sort.SliceStable(s.Nodes, func(i, j int) bool {
+		if s.Nodes[i].Dc != s.Nodes[j].Dc {
+			return s.Nodes[i].Dc < s.Nodes[j].Dc
+		}
+		return s.Nodes[i].Rack < s.Nodes[j].Rack
+	})
+	// replicated volumes (small: tried first by the writable pass), valid layouts on the sources
+	var rps []uint32
+	if ndc == 1 {
+		rps = []uint32{10, 10, 20, 11}
+	} else {
+		rps = []uint32{100, 100, 110, 10}
+	}
+	nrep := r.Range(1, 2)
+	id := uint32(0)
+	for i := 0; i < nrep; i++ {
+		id++
+		v := Vol{Id: id, Rp: rps[r.Intn(len(rps))], Size: uint64(10 * (i + 1)), Mtime: 1}
+		x, y, z := rpDigits(v.Rp)
+		var chosen []*Node
+		has := func(n *Node) bool {
+			for _, c := range chosen {
+				if c == n {
+					return true
+				}
+			}
+			return false
+		}
+		pick := func(f func(n *Node) bool) *Node {
+			var ok []*Node
+			for _, n := range sources {
+				if !has(n) && f(n) {
+					ok = append(ok, n)
+				}
+			}
+			if len(ok) == 0 {
+				return nil
+			}
+			return ok[r.Intn(len(ok))]
+		}
+		first := pick(func(*Node) bool { return true })
+		chosen = append(chosen, first)
+		for k := 0; k < z; k++ {
+			if n := pick(func(n *Node) bool { return n.Dc == first.Dc && n.Rack == first.Rack }); n != nil {
+				chosen = append(chosen, n)
+			}
+		}
+		usedRacks := map[int]bool{first.Rack: true}
+		for k := 0; k < y; k++ {
+			if n := pick(func(n *Node) bool { return n.Dc == first.Dc && !usedRacks[n.Rack] }); n != nil {
+				chosen = append(chosen, n)
+				usedRacks[n.Rack] = true
+			}
+		}
+		usedDcs := map[int]bool{first.Dc: true}
+		for k := 0; k < x; k++ {
+			if n := pick(func(n *Node) bool { return !usedDcs[n.Dc] }); n != nil {
+				chosen = append(chosen, n)
+				usedDcs[n.Dc] = true
+			}
+		}
+		for _, n := range chosen {
+			n.Disks[0].Vols = append(n.Disks[0].Vols, v)
+		}
+	}
+	// fillers (larger, replication 000) so that every source server is full
+	for _, n := range sources {
+		want := r.Range(2, 3)
+		for len(n.Disks[0].Vols) < want {
+			id++
+			n.Disks[0].Vols = append(n.Disks[0].Vols, Vol{Id: id, Size: uint64(r.PickInt([]int{300, 500, 999})), Mtime: 1})
+		}
+		n.Disks[0].Max = uint64(len(n.Disks[0].Vols))
+		if r.Chance(1, 4) {
+			n.Disks[0].Max++
+		}
+	}
+	return s
+}
+
 // a small universe of locations for the function-level cases
 func genLoc(r *hx.Rng) (shell.VerifC15Loc, string) {
 	dc, rack := r.Range(1, 3), r.Range(1, 3)
@@ -498,7 +628,7 @@ func witnesses(out *hx.Out) {
 
 func main() {
 	out := hx.Flags("C15", 300)
-	out.Rule = "random snapshots (2-3 DCs x 1-3 racks x 1-3 servers, 1-2 disk types, 2-8 slots per disk, 3-10 volumes, replication in {000,001,010,100,011,110,200,002,120}, replica sets valid/under/over/misplaced, per-replica read-only/size, 1-2 collections) fed to the real balance (ALL/EACH/one collection), evacuate (random server, skipNonMoveable on/off) and fix.replication (-retry 0..2) planners in dry-run; plus direct isGoodMove/satisfyReplicaPlacement/NewReplicaPlacementFromByte calls over a 27-server universe; the first 6 cases are the witnesses of the three known findings (cases 0, 1, 5) and of the three repaired defects (cases 2, 3, 4, now ok); non-trivial = the plan has at least one step (function cases: result true); distinct = canonical snapshot + run parameters"
+	out.Rule = "random snapshots (2-3 DCs x 1-3 racks x 1-3 servers, 1-2 disk types, 2-8 slots per disk, 3-10 volumes, replication in {000,001,010,100,011,110,200,002,120}, replica sets valid/under/over/misplaced, per-replica read-only/size, 1-2 collections) plus a 'spread' family for balance (replicated 010/020/011/100/110 volumes on FULL servers of several racks/data centers, empty servers on one rack: several replicas of one volume move in one run); fed to the real balance (ALL/EACH/one collection; the planner's final replica bookkeeping incl. data center and rack is compared with the model's), evacuate (random server, skipNonMoveable on/off) and fix.replication (-retry 0..2) planners in dry-run; plus direct isGoodMove/satisfyReplicaPlacement/NewReplicaPlacementFromByte calls over a 27-server universe; the first 6 cases are the witnesses of the three known findings (cases 0, 1, 5) and of the three repaired defects (cases 2, 3, 4, now ok); non-trivial = the plan has at least one step (function cases: result true); distinct = canonical snapshot + run parameters"
 	witnesses(out)
 	// consecutive seeds of hx.NewRng give shifted copies of one stream: mix the seed first
 	root := hx.NewRng(hx.NewRng(out.Seed).Next())
@@ -508,8 +638,16 @@ func main() {
 		switch {
 		case k < 8:
 			s := genSnap(r, r.Chance(3, 4))
+			spread := r.Chance(1, 3)
+			if spread {
+				s = genSpreadSnap(r)
+				out.Count("balance:spread", 1)
+			}
 			var colls []string
 			mode := r.Intn(3)
+			if spread {
+				mode = r.Intn(2)
+			}
 			switch mode {
 			case 0:
 				colls = []string{"ALL_COLLECTIONS"}
